@@ -17,7 +17,9 @@ def feq(a, b, rel):
     if a is None or b is None: return False
     if math.isnan(a) or math.isnan(b): return False
     if math.isinf(a) or math.isinf(b): return False
-    return abs(a - b) <= rel * max(abs(a), abs(b))
+    # builtin sum() is compensated for python floats but not for the numpy scalars mystic passes around, so values formed by
+    # cancellation (a.x - b near 0) may differ in their last bits: allow 1e-14 absolute on top of the relative tolerance
+    return abs(a - b) <= rel * max(abs(a), abs(b)) + 1e-14
 
 
 def gen_cfg(rng, focus, solvers=('nm', 'powell', 'de', 'de2')):
